@@ -250,7 +250,7 @@ def run(run):
                 'deliveries compared with the frame-per-call run of a fresh receiver; distinct = (framing, direction, stream bytes, cuts); '
                 'non-trivial = a cut strictly inside a frame or a chunk holding more than one frame end')
     run.assumptions = ['reference ADU builder builds the streams', 'frame-per-call run of the same framer class as differential baseline (cases whose baseline is not clean belong to C03 and are skipped)']
-    nstreams = run.scale(90, 2400)
+    nstreams = run.scale(90, 8000)
     for framing in FRAMINGS:
         for d in (REQ, RSP):
             for i in range(nstreams):
